@@ -53,3 +53,37 @@ split; rewrite /pos /aopp /=.
 Qed.
 
 End Rcf.
+
+(* ------------------------------------------------------------------ the factor in MathComp matrix form:
+   for a symmetric input the returned (zero-filled) L satisfies  L *m L^T = M  as 'M[R]_n *)
+Section Bridge.
+Variable R : rcfType.
+Notation arR := (ArRcf R).
+Notation T := (carrier R).
+
+(* list matrix -> MathComp matrix *)
+Definition mx_of (n : nat) (M : matrix T) : 'M[R]_n := \matrix_(i, j) (ent T arR M i j : R).
+
+Lemma dot_sum (n : nat) : forall (u v : list T), length u = n -> length v = n ->
+  (dot T arR u v : R) = \sum_(k < n) (List.nth k u (0 : R)) * (List.nth k v (0 : R)).
+Proof.
+elim: n => [|n IH] [|x u] [|y v] //= Hu Hv.
+- by rewrite big_ord0.
+- rewrite big_ord_recl /=. congr (_ + _). apply: IH; congruence.
+Qed.
+
+(* stated as a definition so that Property.v (which does not import MathComp notations) can name it *)
+Definition is_matrix_root (n : nat) (L M : matrix T) : Prop := mx_of n L *m (mx_of n L)^T = mx_of n M.
+
+Theorem chol_spec_mx n (M L : matrix T) :
+  chol_spec T arR n M L -> sym T arR n M -> is_matrix_root n L M.
+Proof.
+rewrite /is_matrix_root => Hs Hsym. apply/matrixP => i j. rewrite !mxE.
+have Hi := ssrnat.ltP (ltn_ord i).
+have Hj := ssrnat.ltP (ltn_ord j).
+rewrite -(chol_spec_sym T arR (ArRcf_field R) n M L Hs Hsym i j Hi Hj).
+have [Hl Hr] := cs_dims _ _ _ _ _ Hs.
+rewrite (dot_sum n) ?Hr //.
+by apply: eq_bigr => k _; rewrite !mxE.
+Qed.
+End Bridge.
